@@ -108,10 +108,21 @@ fn one(id: u64, v: &Value) -> Value {
             let tc = TestCase { title: "t".into(), shell_expression: "true".into(), expectations: vec![], exit_code: None, line_number: 0, config: full.clone() };
             let output = Output { stdout: vec![].into(), stderr: vec![].into(), exit_code: ExitStatus::Code(0) };
             let oc = Outcome { location: None, output: output.clone(), testcase: tc.clone(), format: ParserType::Markdown, escaping: Escaper::Unicode, result: tc.validate(&output) };
-            let text = MarkdownTestCaseGenerator::default().generate_testcases(&[&oc])?;
+            // a document has several test cases, each with its own configuration: a neighbour with a fixed, different
+            // configuration is rendered in the same call, before and after the one under test
+            let mut ncfg = TestCaseConfig::default_markdown();
+            ncfg.timeout = Some(std::time::Duration::from_secs(7));
+            ncfg.environment.insert("NEIGHBOUR".into(), "n".into());
+            let ntc = TestCase { title: "n".into(), shell_expression: "false".into(), expectations: vec![], exit_code: None, line_number: 0, config: ncfg.clone() };
+            let noc = Outcome { location: None, output: output.clone(), testcase: ntc.clone(), format: ParserType::Markdown, escaping: Escaper::Unicode, result: ntc.validate(&output) };
+            let text = MarkdownTestCaseGenerator::default().generate_testcases(&[&noc, &oc, &noc])?;
             let (_d, tests) = md_parser().parse(&text).map_err(|e| anyhow::anyhow!("PARSE {text:?}: {e:#}"))?;
-            if tests.len() != 1 { anyhow::bail!("PARSE {} tests in {text:?}", tests.len()); }
-            Ok((text, canon(&full), canon(&tests[0].config)))
+            if tests.len() != 3 { anyhow::bail!("PARSE {} tests in {text:?}", tests.len()); }
+            let (mut a, mut b) = (canon(&full), canon(&tests[1].config));
+            for (k, val) in canon(&ncfg) { a.insert(format!("before.{k}"), val.clone()); a.insert(format!("after.{k}"), val); }
+            for (k, val) in canon(&tests[0].config) { b.insert(format!("before.{k}"), val); }
+            for (k, val) in canon(&tests[2].config) { b.insert(format!("after.{k}"), val); }
+            Ok((text, a, b))
         } else {
             let dc = DocumentConfig { defaults: c.clone(), total_timeout: c.timeout, shell: Some(PathBuf::from("/bin/my bash")),
                                       prepend: vec![PathBuf::from("pre one.md")], append: vec![PathBuf::from("app#.md")] };
